@@ -116,35 +116,35 @@ type opRec struct {
 }
 
 type logRun struct {
-	seed    uint64
-	prof    string
-	tape    *rt.Tape
-	sim     *rt.Sim
-	dir     string
-	base    string
-	segSize int
-	l       *Log
-	m       *model
-	before  *model // model before the operation in progress
-	opKind  string
-	opArg   uint64
-	pending []byte // the entry an append in progress is writing
-	ops     []opRec
-	viol    *violation
-	infra   string
-	stop    bool
-	done    bool
-	readers int
-	readerQ rt.WaitQ
-	inCheck bool
-	images  int
-	plImages int
-	boundaries int
-	reach   map[string]int
-	durableBytes map[string][]byte // path -> bytes as of the last flush of that file
-	mapped  map[uintptr]string     // mapping start -> path
-	crashMode bool
-	entSeq  uint64
+	seed         uint64
+	prof         string
+	tape         *rt.Tape
+	sim          *rt.Sim
+	dir          string
+	base         string
+	segSize      int
+	l            *Log
+	m            *model
+	before       *model // model before the operation in progress
+	opKind       string
+	opArg        uint64
+	pending      []byte // the entry an append in progress is writing
+	ops          []opRec
+	viol         *violation
+	infra        string
+	stop         bool
+	done         bool
+	readers      int
+	readerQ      rt.WaitQ
+	inCheck      bool
+	images       int
+	plImages     int
+	boundaries   int
+	reach        map[string]int
+	durableBytes map[string][]byte  // path -> bytes as of the last flush of that file
+	mapped       map[uintptr]string // mapping start -> path
+	crashMode    bool
+	entSeq       uint64
 }
 
 func (lr *logRun) violate(prop, oracle, sig, format string, a ...interface{}) {
